@@ -37,7 +37,8 @@ type ChunkOp struct {
 
 type C02Plan struct {
 	File     lib.FileSpec  `json:"file"`
-	Sweep    string        `json:"sweep,omitempty"` // "flips+truncs": exhaustive over the payload region of a small file
+	Sweep    string        `json:"sweep,omitempty"`   // "flips+truncs": exhaustive over the payload region of a small file; "armor-cuts": every truncation length of the armored text
+	Align48  bool          `json:"align48,omitempty"` // armor-cuts: plaintext length adjusted so that the binary file is a multiple of 48 bytes
 	Damage   *Damage       `json:"damage,omitempty"`
 	Seq      []ChunkOp     `json:"seq,omitempty"`
 	Prefix   int           `json:"prefix,omitempty"`   // with-key sequences: this many honest full chunks come first (counters of the sequence are offset by it)
@@ -71,8 +72,8 @@ func (C02) Meta() core.Meta {
 		},
 		Real:       []string{"filippo.io/age Decrypt", "internal/stream Reader", "internal/format Parse", "armor Reader (rearmor runs)"},
 		Stub:       []string{"ciphertext source (SimSource) and its delivery schedule", "storage image (damaged copy of what SimDisk recorded)", "crypto/rand.Reader (tape)", "byzantine writer (reference model with the file key)"},
-		FaultKinds: []string{"fault.trunc", "fault.flip", "fault.insert", "fault.delete", "fault.extend", "fault.drop", "fault.dup", "fault.swap", "fault.move", "fault.misdirect", "fault.byzantine_seq", "fault.src_transient_error_with_the_foreign_bytes"},
-		Probes:     []string{"probe.full_final_chunk", "probe.full_final_plus_trailing", "probe.error_from_Decrypt", "probe.error_after_release", "probe.byz_accepted_canonical", "probe.byz_rejected", "probe.trivial_same_image", "probe.empty_final_after_full", "probe.read_with_1MiB_buffer", "probe.byz_behind_255_to_257_chunks", "probe.drained_by_io_copy", "probe.honest_file_after_the_damaged_ones"},
+		FaultKinds: []string{"fault.armored_text_cut_short", "fault.trunc", "fault.flip", "fault.insert", "fault.delete", "fault.extend", "fault.drop", "fault.dup", "fault.swap", "fault.move", "fault.misdirect", "fault.byzantine_seq", "fault.src_transient_error_with_the_foreign_bytes"},
+		Probes:     []string{"probe.armored_file_ending_in_a_full_line", "probe.full_final_chunk", "probe.full_final_plus_trailing", "probe.error_from_Decrypt", "probe.error_after_release", "probe.byz_accepted_canonical", "probe.byz_rejected", "probe.trivial_same_image", "probe.empty_final_after_full", "probe.read_with_1MiB_buffer", "probe.byz_behind_255_to_257_chunks", "probe.drained_by_io_copy", "probe.honest_file_after_the_damaged_ones"},
 	}
 }
 
@@ -85,6 +86,12 @@ func (C02) Generate(r *core.RNG, tier string, idx uint64) interface{} {
 	p.Rearmor = r.Chance(1, 6)
 	p.SrcTemp = r.Chance(1, 3)
 	switch {
+	case idx%20 == 10:
+		p.Sweep = "armor-cuts"
+		p.File.Recips = []lib.Recip{{Key: &world.Key{T: []string{"x", "x", "e"}[r.Intn(3)], K: r.Intn(4)}}}
+		p.File.PLen = r.Pick(0, 1, 40, 100, 300)
+		p.Align48 = r.Chance(2, 3)
+		p.Rearmor = false
 	case idx%20 == 0:
 		p.Sweep = "flips+truncs"
 		p.File.Recips = []lib.Recip{{Key: &world.Key{T: "x", K: r.Intn(world.NX25519)}}}
@@ -398,6 +405,9 @@ func (e C02) Execute(plan interface{}, c *core.Ctx) *core.Verdict {
 
 func (e C02) exec(plan interface{}, c *core.Ctx, after *func() *core.Verdict) *core.Verdict {
 	p := plan.(*C02Plan)
+	if p.Sweep == "armor-cuts" {
+		return e.execArmorCuts(p, c)
+	}
 	spec := p.File
 	spec.Armor = false
 	F, _ := lib.MustEncrypt(spec)
@@ -656,4 +666,53 @@ func (e C02) exec(plan interface{}, c *core.Ctx, after *func() *core.Verdict) *c
 		})
 	}
 	return core.Fail("harness", "empty plan")
+}
+
+// execArmorCuts: an armored file cut short at every length of its text (an encrypting process that died
+// mid-write, seen through the armor). In two cases of three the plaintext length is chosen so that the binary
+// file is a multiple of 48 bytes: the last body line is then a full line and a cut right behind it loses nothing
+// but the END line. A clean end of stream is allowed only where the cut text still is the complete armor (the
+// final line end missing).
+func (e C02) execArmorCuts(p *C02Plan, c *core.Ctx) *core.Verdict {
+	spec := p.File
+	spec.Armor = false
+	if p.Align48 {
+		bin, _ := lib.MustEncrypt(spec)
+		spec.PLen += (48 - len(bin)%48) % 48
+		c.Stats.Inc("probe.armored_file_ending_in_a_full_line")
+	}
+	spec.Armor = true
+	text, _ := lib.MustEncrypt(spec)
+	P := spec.Plain()
+	full := ref.NormaliseArmor(string(text))
+	ids := []age.Identity{world.Identity(spec.Keys()[0])}
+	for k := 0; k < len(text); k++ {
+		cut := text[:k]
+		for di, d := range []seam.Delivery{{Mode: "whole"}, {Mode: "pieces", MaxPc: 64, Seed: uint64(k), Bufio: 16}} {
+			if di == 1 && k%7 != 0 {
+				continue
+			}
+			res := lib.Decrypt(seam.NewSource(cut, d, nil, nil).Reader(), true, ids, lib.ReadSched{Mode: "all"}, nil)
+			c.Stats.Eval(fmt.Sprintf("armorcut|%s|%d|%d", spec.Skeleton(), k, di), true)
+			c.Stats.Inc("fault.armored_text_cut_short")
+			if res.BadRead != "" {
+				return core.Fail("C02.badread", "%s", res.BadRead)
+			}
+			if len(res.Released) > len(P) || !bytes.Equal(res.Released, P[:len(res.Released)]) {
+				return core.Fail("C02.not_prefix", "armored file %s cut to %d of %d text bytes released %d bytes that are not a prefix of the plaintext", spec.Skeleton(), k, len(text), len(res.Released))
+			}
+			if res.Clean() && ref.NormaliseArmor(string(cut)) != full {
+				v := core.Fail("C02.accepted", "armored file %s cut to %d of %d text bytes (ends in %q) was decrypted to a clean end of stream (%d bytes released); delivery %s", spec.Skeleton(), k, len(text), clipTail(cut), len(res.Released), d)
+				return v
+			}
+		}
+	}
+	return nil
+}
+
+func clipTail(b []byte) string {
+	if len(b) > 40 {
+		b = b[len(b)-40:]
+	}
+	return string(b)
 }
